@@ -5098,8 +5098,9 @@ class Entity(object, metaclass=EntityMeta):
                                                          "and 'cascade_delete' option of %s is not set"
                                                          % (obj, attr.name, attr))
                         elif isinstance(reverse, Set):
-                            if attr not in obj._vals_: continue
-                            val = get_val(attr)
+                            # a reference that is not loaded yet has to be loaded: otherwise the parent's collection
+                            # keeps (or, when the row is loaded later, gets back) the deleted object
+                            val = get_val(attr) if attr in obj._vals_ else attr.load(obj)
                             if val is None: continue
                             reverse.reverse_remove((val,), obj, undo_funcs)
                         else: throw(NotImplementedError)
